@@ -282,10 +282,17 @@ class McastHarness:
         cell_set(e_count, "count", k)
         was_connected = ctx.choose(2, "already connected") == 0
         cell_set(e_conn, "is_connected", was_connected)
+        # the handle of an earlier connection may be held (the count went up to n, down, and comes up again): arbitrary, like the counters
+        e_held = env.lookup_env("connectable_subscription")
+        earlier = Opaque("disposable", "connection-made-earlier")
+        if e_held is not None and ctx.choose(2, "a connection made earlier is held") == 0:
+            cell_set(e_held, "connectable_subscription", earlier)
         del connects[:]
         w.log.clear()
         D = it.call(sub, [self.observer, self.sched], {})
         self.rec(ctx, uid + "/subscribe/subscribes-the-observer-to-the-connectable-exactly-once", len(csubs) == 1 and csubs[0][0] and csubs[0][0][0] is self.observer)
+        self.rec(ctx, uid + "/subscribe/an-arriving-subscriber-disposes-nothing (stays connected indefinitely)", not self.ev("dispose"),
+                 detail=f"disposed while subscribing: {[getattr(e[1], 'name', e[1]) for e in self.ev('dispose')]!r}")
         should = ctx.branch(z3.And(k.t + 1 == n.t, z3.BoolVal(not was_connected)), "the n-th subscriber and not yet connected")
         self.rec(ctx, uid + "/subscribe/connects-exactly-when-the-n-th-subscriber-arrives", len(connects) == (1 if should else 0))
         self.rec(ctx, uid + "/subscribe/counts-the-subscriber", it.to_int(cell_get(e_count, "count")) == k.t + 1)
